@@ -104,7 +104,9 @@ def run_sens(ctx, n):
             # a packed batch that is not length-sorted: the recurrent layer's per-sample gradients come in length-sorted row order (finding of C01),
             # so one example is clipped in two different rows
             known = c['model'] == 'rnnpack' and r.get('lens_sorted') is False
-            ctx.fail('rnn-packed-unsorted-sensitivity' if known else 'sensitivity-exceeds-bound', b, c)
+            # ghost clipping with column-shaped per-sample losses: the sum is the broadcast form (finding of C03)
+            col = c['clipping'] == 'ghost' and c.get('lcol') and r.get('defect_form') is True
+            ctx.fail('rnn-packed-unsorted-sensitivity' if known else 'ghost-column-loss-sensitivity' if col else 'sensitivity-exceeds-bound', b, c)
 
 
 def run(ctx, gen_status):
@@ -118,7 +120,7 @@ def run(ctx, gen_status):
 
 
 def search(ctx):
-    if ctx.failures and not all(f['key'] == 'rnn-packed-unsorted-sensitivity' for f in ctx.failures):
+    if ctx.failures and not all(f['key'] in ('rnn-packed-unsorted-sensitivity', 'ghost-column-loss-sensitivity') for f in ctx.failures):
         return
     if ctx.failures and not ctx.broken:
         return
@@ -132,5 +134,7 @@ def replay_case(ctx, failure):
         r = vlib.run_impl('clip_numeric.py', {'sens': [c], 'step': []})['sens'][0]
         for b in r['bad'][:1]:
             known = c['model'] == 'rnnpack' and r.get('lens_sorted') is False
-            ctx.fail('rnn-packed-unsorted-sensitivity' if known else 'sensitivity-exceeds-bound', b, c)
+            # ghost clipping with column-shaped per-sample losses: the sum is the broadcast form (finding of C03)
+            col = c['clipping'] == 'ghost' and c.get('lcol') and r.get('defect_form') is True
+            ctx.fail('rnn-packed-unsorted-sensitivity' if known else 'ghost-column-loss-sensitivity' if col else 'sensitivity-exceeds-bound', b, c)
     return len(ctx.failures) == n0, ctx.failures[n0:] or 'holds'
